@@ -500,6 +500,7 @@ def check_skel(case):
         raise
     except Exception as e:
         return fail(exc_bucket(e, 'build'), 'building the model raised %r' % e, tags)
+    d1 = _snap(wn)
     thr = float(case['threshold'])
     what = ('skeletonize(thr=%r, branch=%s, series=%s, parallel=%s, max_cycles=%s, use_epanet=%s, excl_p=%s, excl_j=%s)'
             % (thr, case['branch'], case['series'], case['parallel'], case['max_cycles'], case['use_epanet'],
@@ -539,6 +540,35 @@ def check_skel(case):
         if have != kind:
             return fail('skel/lost/%s' % why, what + ': %s %s (%s) is %s in the result'
                         % (kind, name, why, 'missing' if have is None else have), tags)
+    # ---- a pipe that is excluded or referenced by a control/rule is kept as it is (not re-created from a merge), and the
+    #      controls of the result refer to the objects registered in the result
+    for (grp, name) in sorted(req):
+        kind, why = req[(grp, name)]
+        if grp == 'link' and kind == 'Pipe':
+            a, b = d1['links'].get(name), d2['links'].get(name)
+            for fld in ('start_node_name', 'end_node_name', 'length', 'diameter', 'roughness', 'minor_loss',
+                        'initial_status', 'check_valve', 'vertices'):
+                if a is not None and b is not None and a.get(fld) != b.get(fld):
+                    return fail('skel/changed/%s' % why, what + ': pipe %s (%s) was to be kept but its %s changed from %r '
+                                'to %r' % (name, why, fld, a.get(fld), b.get(fld)), tags)
+    try:
+        for cname, ctl in wn2.controls():
+            for obj in ctl.requires():
+                nm = getattr(obj, 'name', None)
+                reg = None
+                if nm in wn2.link_name_list and obj.__class__.__name__ in ('Pipe', 'HeadPump', 'PowerPump') or \
+                        (nm in wn2.link_name_list and 'Valve' in obj.__class__.__name__):
+                    reg = wn2.get_link(nm)
+                elif nm in wn2.node_name_list:
+                    reg = wn2.get_node(nm)
+                if reg is not None and reg is not obj and type(reg) is type(obj):
+                    return fail('skel/control_refers_to_stale_object', what + ': control %s of the result requires an object '
+                                'named %s that is not the %s registered under that name in the result'
+                                % (cname, nm, type(reg).__name__), tags)
+    except CaseTimeout:
+        raise
+    except Exception as e:
+        return fail(exc_bucket(e, 'skel_controls'), what + ': walking the controls of the result raised %r' % e, tags)
     # ---- total demand
     for t in _times(spec['opts']):
         before = sum(S.expected_demand(spec, j, t) for j in spec['junctions'])
